@@ -71,10 +71,24 @@ fn ctor_event(sc: &str, a: &[u64]) -> Value {
 }
 
 fn tryfrom_event(sc: &str, days: i64, sod: i64) -> Value {
-    let r = catch_unwind(|| {
-        let o = match OffsetDateTime::from_unix_timestamp(days * 86400 + sod) {
+    tryfrom_event_off(sc, days, sod, 0)
+}
+
+/// the same calendar fields (day number `days`, second of day `sod`) presented in a zone `offh` hours from UTC: the conversion takes
+/// the fields as the caller's clock shows them (a DOS time has no zone), so the expectation does not depend on the offset
+fn tryfrom_event_off(sc: &str, days: i64, sod: i64, offh: i8) -> Value {
+    let r = catch_unwind(move || {
+        let o = match OffsetDateTime::from_unix_timestamp(days * 86400 + sod - (offh as i64) * 3600) {
             Ok(o) => o,
             Err(_) => return json!({"r": "unrepresentable"}),
+        };
+        let o = if offh != 0 {
+            match time::UtcOffset::from_hms(offh, 0, 0).ok().and_then(|z| o.checked_to_offset(z)) {
+                Some(o) => o,
+                None => return json!({"r": "unrepresentable"}),
+            }
+        } else {
+            o
         };
         match DateTime::try_from(o) {
             Ok(dt) => {
@@ -399,6 +413,15 @@ pub fn main_texec(args: &[String]) -> i32 {
             "tryfrom" => {
                 for z in c["z"].as_array().unwrap() {
                     out.push(tryfrom_event(&sc, z[0].as_i64().unwrap(), z[1].as_i64().unwrap()));
+                    // every 16th moment also as shown by clocks east and west of UTC
+                    let dz = z[0].as_i64().unwrap();
+                    if out.len() % 16 == 0 || (dz - 3652).abs() <= 1 || (dz - 50403).abs() <= 1 {
+                        for offh in [1i8, -1, 14, -12] {
+                            let mut e = tryfrom_event_off(&sc, z[0].as_i64().unwrap(), z[1].as_i64().unwrap(), offh);
+                            e["off"] = json!(offh);
+                            out.push(e);
+                        }
+                    }
                 }
             }
             "archive_ctor" => archive_events(&sc, "ctor", c["args"].as_array().unwrap(), &mut out),
